@@ -4,7 +4,8 @@
    Two families, selected by the constant Family:
      "enc": e = a body, a chunking of it, extension spellings on the first chunk and on the last-chunk, a trailer
             section and a spelling of the size digits;
-     "str": e = any string over Alpha2 up to MaxStr bytes (mostly malformed). *)
+     "str": e = any string over Alpha2 up to MaxStr bytes (mostly malformed);
+     "mut": e = a valid encoding of a body of at most one byte with one byte replaced by a symbol of Alpha2 or deleted. *)
 EXTENDS Chunked, TLC, FiniteSets
 CONSTANTS Family, MaxBody, Alpha, NExt1, NExt2, MaxStr, Alpha2
 VARIABLES slot, go, e
@@ -38,6 +39,7 @@ Pieces(b, cuts, a, x1, pad) ==
 EncOk(r) == /\ r.cuts \in CutsFor(r.body)
             /\ (r.body = <<>> => r.x1 = 1)
             /\ (r.pad = 2 => Len(r.body) > MaxBody)      \* upper case only matters for sizes >= 10
+Enc(r) == Encode(Pieces(r.body, r.cuts, 1, r.x1, r.pad), [hex |-> Zeros(IF r.pad = 1 THEN 2 ELSE 1), ext |-> Exts[r.x2]], Trailers[r.tr])
 StrDomain == UNION {[1..k -> Alpha2] : k \in 0..MaxStr}
 
 \* sixteen parent states share the domain so that the laws are evaluated by all workers
@@ -45,7 +47,12 @@ NParts == 16
 RECURSIVE SumSeq(_)
 SumSeq(q) == IF q = <<>> THEN 0 ELSE Head(q) + SumSeq(Tail(q))
 Part(d) == IF Family = "enc" THEN (d.x1 + 3 * d.x2 + 5 * d.tr + 7 * Len(d.body) + d.pad) % NParts ELSE (SumSeq(d) + Len(d)) % NParts
-Domain == IF Family = "enc"
+MutBase == {d \in {[body |-> b, cuts |-> {}, x1 |-> x1, x2 |-> 1, tr |-> t, pad |-> 0] :
+                        b \in {<<>>, <<97>>}, x1 \in 1..NExt1, t \in 1..2} : EncOk(d)}
+Replace(w, p, b) == [j \in 1..Len(w) |-> IF j = p THEN b ELSE w[j]]
+Delete(w, p) == SubSeq(w, 1, p - 1) \o SubSeq(w, p + 1, Len(w))
+MutDomain == UNION {{Replace(Enc(d), p, b) : p \in 1..Len(Enc(d)), b \in Alpha2} \cup {Delete(Enc(d), p) : p \in 1..Len(Enc(d))} : d \in MutBase}
+Domain == IF Family = "mut" THEN MutDomain ELSE IF Family = "enc"
           THEN {d \in {[body |-> b, cuts |-> k, x1 |-> x1, x2 |-> x2, tr |-> t, pad |-> p] :
                          b \in Bodies, k \in SUBSET {1, 2, 10}, x1 \in 1..NExt1, x2 \in 1..NExt2, t \in 1..Len(Trailers), p \in 0..2} : EncOk(d)}
           ELSE StrDomain
@@ -55,7 +62,6 @@ Next == ~go /\ go' = TRUE /\ e' \in {d \in Domain : Part(d) = slot} /\ slot' = s
 
 Modes == {Strict, Tolerant(0), Tolerant(1)}
 Caps == {1, 2, Unlimited}
-Enc(r) == Encode(Pieces(r.body, r.cuts, 1, r.x1, r.pad), [hex |-> Zeros(IF r.pad = 1 THEN 2 ELSE 1), ext |-> Exts[r.x2]], Trailers[r.tr])
 
 \* Decode(Encode(b)) = b for every grammar mode; truncation only asks for more; trailing bytes are left alone;
 \* every single split point and every output capacity gives the same result
